@@ -121,6 +121,8 @@ def enforce(k: int, m: int, r1: int, r2: int, r3: int) -> bool:
     except FactorEncodingError:
         # allowed whenever the generated names are not exactly the recorded ones
         return set(generated) != set(recorded)
+    except Exception:
+        return False  # any other exception type escaping is a failure
     (t, _, cols), = out
     if list(cols) != recorded:  # exactly the recorded columns, in recorded order
         return False
